@@ -66,7 +66,7 @@ func (p QueryProof) Verify(key []byte, expectedRootHash hashing.Digest) (valid b
 	}
 	recomputed, err := ops.Pop().Interpret(ops, ctx)
 	if err != nil {
-		panic(err)
+		return false
 	}
 
 	return bytes.Equal(key, p.Key) && bytes.Equal(recomputed, expectedRootHash)
